@@ -13,14 +13,16 @@
     * decode ∘ encode ∘ decode = decode for packets (decoder outputs are well-formed)
     * `ConnectToken` write/read for 1..32 IPv4/IPv6 addresses, `PrivateConnectToken` encode/decode (seal/open),
       `ChallengeToken` generate/decode; tokens built by `generate` are well-formed
-  Not proven / false, stated precisely below
-    * a token whose address array has a hole does NOT round-trip (`token_hole_counterexample`), and
-      `read_server_addresses` accepts serialisations that decode to such arrays (`token_read_accepts_hole`):
-      "decodes ⇒ re-encodes to the same value" is therefore FALSE for connect tokens in general
-      (`token_reencode_counterexample`); it holds when the decoded array is prefix-compact — the only shape
-      `generate` builds (`token_reencode_partial`, `token_roundtrip`).
-    * not stated: re-encoding of byte strings accepted by `PrivateConnectToken::read` / `ChallengeToken::decode`
-      (their readers ignore trailing padding, so only value-level round trips are given).
+    * every token `ConnectToken::read` accepts has a prefix-compact address array with ≥ 1 address
+      (`read_is_prefix_compact`), hence decode ∘ encode ∘ decode = decode for connect tokens without any side
+      condition (`token_reencode`), and the same at value level for the private token the server opens
+      (`private_token_reencode`)
+  History: the model of the code before commit 37089df skipped NETCODE_ADDRESS_NONE entries in
+      `read_server_addresses`, so `read` accepted address lists with holes, for which re-encoding gave a different
+      token (defect D19; the counter-example was proved here against that model).  Repaired: a NONE entry is an error
+      (`read_rejects_hole`).  `token_value_with_hole` stays as the reason why `TokenWF` asks for compactness.
+  Not stated: byte-level re-encoding for `PrivateConnectToken::read` / `ChallengeToken::decode` (their readers ignore
+      trailing padding, so only value-level round trips are given).
 -/
 import RenetVerif.Lemmas.NcAead
 namespace RenetVerif.C16N
@@ -216,39 +218,44 @@ theorem challenge_token_roundtrip (a : AEAD) (hl : a.Laws) (clientId : Nat) (hc 
   rw [hl.seal_length]
   simp [NcAead.Token.chPlain, hud]
 
-/-! ### what is false: address arrays with holes -/
+/-! ### tokens read from the wire -/
 
-/-- The serialisation does not record *which* slots are empty.  A token value with a hole (slot 1 empty, slot 2 used)
-    is written as two back-to-back addresses and read back into slots 0 and 1: it does not round-trip.  The
-    library cannot build such a value (`generate` fills a prefix; `generate_wf`). -/
-theorem token_hole_counterexample :
+/-- **Every token `ConnectToken::read` accepts has a prefix-compact address array with at least one address** — and
+    the field widths of its Rust type and the library's version string: it is `TokenWF`. -/
+theorem read_is_prefix_compact (src : Bytes) (t : ConnectToken) (h : ConnectToken.read src = .ok t) :
+    NcAead.Token.Compact t.serverAddresses ∧ TokenWF t :=
+  ⟨(NcAead.Token.ct_read_wf h).compact, NcAead.Token.ct_read_wf h⟩
+
+/-- **decode ∘ encode ∘ decode = decode for connect tokens**, unconditionally (since the repair of D19) -/
+theorem token_reencode (src : Bytes) (t : ConnectToken) (h : ConnectToken.read src = .ok t) :
+    ∃ b, t.write = .ok b ∧ ConnectToken.read b = .ok t := NcAead.Token.ct_reencode h
+
+/-- the same for what the server does with a request's sealed part: whatever `PrivateConnectToken::decode` returns
+    is well-formed (in particular its host list is prefix-compact, ≥ 1 host), so sealing it again and opening that
+    gives the same token -/
+theorem private_token_reencode (a : AEAD) (hl : a.Laws) (buf : Bytes) (proto expire : Nat) (xnonce key : Bytes)
+    (t : PrivateConnectToken) (h : PrivateConnectToken.decode a buf proto expire xnonce key = .ok t) :
+    PrivateTokenWF t ∧ ∃ sealed, t.encode a proto expire xnonce key = .ok sealed ∧
+      PrivateConnectToken.decode a sealed proto expire xnonce key = .ok t := by
+  have hwf := NcAead.Token.pt_decode_wf h
+  obtain ⟨sealed, h1, _, h2⟩ := private_token_roundtrip a hl t hwf proto expire xnonce key
+  exact ⟨hwf, sealed, h1, h2⟩
+
+/-- the reader refuses an address list with a NONE entry in the middle (accepted before the repair of D19) -/
+theorem read_rejects_hole :
+    readServerAddresses ([3, 0, 0, 0] ++ [1, 127, 0, 0, 1, 136, 19] ++ [0] ++ [1, 10, 0, 0, 2, 112, 23]) = none :=
+  NcAead.Token.read_rejects_hole
+
+/-- Why `TokenWF` asks for compactness: the serialisation does not record *which* slots are empty.  A token *value*
+    with a hole (slot 1 empty, slot 2 used) is written as two back-to-back addresses and read back into slots 0 and 1.
+    No library path builds such a value: `generate` fills a prefix (`generate_wf`) and `read` returns compact arrays
+    (`read_is_prefix_compact`). -/
+theorem token_value_with_hole :
     let a1 := Addr.v4 [127, 0, 0, 1] 5000
     let a2 := Addr.v6 (List.replicate 16 1) 6000
     let holed : AddrArray := [some a1, none, some a2] ++ List.replicate 29 none
     readServerAddresses (NcAead.Token.addrsBytes holed) = some ([some a1, some a2] ++ List.replicate 30 none, []) :=
   NcAead.Token.hole_not_roundtrip
-
-/-- … and the reader accepts byte strings (address type 0 in the middle of the list) that decode to such an array,
-    so "decodes ⇒ re-encodes to bytes that decode to the same value" fails for connect tokens received from the
-    wire; it holds exactly when the decoded array is prefix-compact (`token_roundtrip`). -/
-theorem token_read_accepts_hole :
-    readServerAddresses ([3, 0, 0, 0] ++ [1, 127, 0, 0, 1, 136, 19] ++ [0] ++ [1, 10, 0, 0, 2, 112, 23]) =
-      some ([some (Addr.v4 [127, 0, 0, 1] 5000), none, some (Addr.v4 [10, 0, 0, 2] 6000)] ++ List.replicate 29 none, []) := by
-  decide +kernel
-
-/-- **Partial re-encoding theorem for connect tokens**: a byte string that `read` accepts and whose decoded address
-    array is prefix-compact re-encodes to bytes that decode to the same token (decoder outputs have the Rust field
-    widths and the library's version string). -/
-theorem token_reencode_partial (src : Bytes) (t : ConnectToken) (h : ConnectToken.read src = .ok t)
-    (hc : NcAead.Token.Compact t.serverAddresses) :
-    TokenWF t ∧ ∃ b', t.write = .ok b' ∧ ConnectToken.read b' = .ok t :=
-  ⟨NcAead.Token.ct_read_wf h hc, NcAead.Token.ct_reencode_partial h hc⟩
-
-/-- … and the missing part is false: `holedTokenBytes` (address list IPv4, NONE, IPv4) is accepted by `read`,
-    re-serialises, and reading that gives a different token. -/
-theorem token_reencode_counterexample :
-    ∃ t b' t', ConnectToken.read NcAead.Token.holedTokenBytes = .ok t ∧ t.write = .ok b' ∧
-      ConnectToken.read b' = .ok t' ∧ t' ≠ t := NcAead.Token.ct_reencode_counterexample
 
 /-! ### the hypotheses are met by concrete, non-trivial values (`AEAD.toy`) -/
 
